@@ -83,6 +83,12 @@ def gen_cases(tier, seed):
                 t, kind = rng.choice(DATA_CMDS)
                 ops.append(C(1, t % rng.choice(KEYS))); dist["data_cmds"] += 1
             elif r < 0.9 and cred == "user":
+                if rng.random() < 0.35:
+                    # the administrator revokes the list (removes the stored key) before granting another one: the session stays open
+                    ops.append(C(0, "remove $$permission_$bob")); dist["revocations"] = dist.get("revocations", 0) + 1
+                    if rng.random() < 0.5:
+                        t, kind = rng.choice(DATA_CMDS)
+                        ops.append(C(1, t % rng.choice(KEYS))); dist["data_cmds"] += 1
                 perms = [(rng.choice(KINDSETS), [rng.choice(PATTERNS)])]
                 ops.append(C(0, "set-permissions bob " + "|".join("%s %s" % (k, ",".join(p)) for k, p in perms)))
             elif r < 0.95:
@@ -116,6 +122,8 @@ def oracle(case, io, mo):
             for part in line.split(" ", 2)[2].split("|"):
                 pp = part.split(" ", 1)
                 perms.append((pp[0], pp[1].split(",") if len(pp) > 1 else []))
+        if sid == 0 and line == "remove $$permission_$bob" and reply == "Ok":
+            perms = None
         if sid != 1:
             prev_dump = dump; continue
         m = SESS1.search(prev_dump or "")
